@@ -168,7 +168,11 @@ impl TplLitType {
     pub fn describe(&self) -> String {
         match self.0.as_slice() {
             [TplLitTypeItem::StringConst(single_str)] => {
-                let inner = single_str.clone();
+                let inner = single_str
+                    .replace('\\', "\\\\")
+                    .replace('"', "\\\"")
+                    .replace('\n', "\\n")
+                    .replace('\r', "\\r");
                 format!("\"{}\"", inner)
             }
             _ => {
@@ -179,7 +183,12 @@ impl TplLitType {
                         TplLitTypeItem::String => "${string}".to_string(),
                         TplLitTypeItem::Number => "${number}".to_string(),
                         TplLitTypeItem::Boolean => "${boolean}".to_string(),
-                        TplLitTypeItem::StringConst(v) => v.clone(),
+                        // a segment is printed as source text again
+                        TplLitTypeItem::StringConst(v) => v
+                            .replace('\\', "\\\\")
+                            .replace('`', "\\`")
+                            .replace('$', "\\$")
+                            .replace('\r', "\\r"),
                         TplLitTypeItem::OneOf(values) => {
                             let mut values = values.iter().collect::<Vec<_>>();
                             values.sort();
